@@ -54,3 +54,26 @@ Proof. intros ->. rewrite skipn_app, skipn_all, Nat.sub_diag. reflexivity. Qed.
 
 Lemma firstn_app_exact {B} (l r : list B) (a : nat) : a = length l -> firstn a (l ++ r) = l.
 Proof. intros ->. rewrite firstn_app, firstn_all, Nat.sub_diag. simpl. apply app_nil_r. Qed.
+
+(* skipping i blocks of a concatenation of m-byte blocks leaves block i in front *)
+Lemma skipn_flat_map_seq {B} (f : nat -> list B) (m : nat) : forall cnt s i,
+  (forall j, (s <= j < s + cnt)%nat -> length (f j) = m) -> (i < cnt)%nat ->
+  skipn (i * m) (flat_map f (seq s cnt)) = f (s + i)%nat ++ flat_map f (seq (s + i + 1) (cnt - i - 1)).
+Proof.
+  induction cnt as [|cnt IH]; intros s i Hlen Hi; [lia|].
+  cbn [seq flat_map]. destruct i as [|i].
+  - simpl. rewrite Nat.add_0_r, Nat.sub_0_r. replace (s + 1)%nat with (S s) by lia. reflexivity.
+  - replace (S i * m)%nat with (length (f s) + i * m)%nat by (rewrite Hlen by lia; lia).
+    rewrite skipn_app, skipn_all2 by lia. simpl.
+    replace (length (f s) + i * m - length (f s))%nat with (i * m)%nat by lia.
+    rewrite IH by (try lia; intros; apply Hlen; lia).
+    replace (S s + i)%nat with (s + S i)%nat by lia. reflexivity.
+Qed.
+
+Lemma skipn_add {B} (x y : nat) (l : list B) : skipn x (skipn y l) = skipn (x + y) l.
+Proof.
+  revert l; induction y as [|y IH]; intros l.
+  - rewrite Nat.add_0_r. reflexivity.
+  - destruct l as [|b l]; [rewrite !skipn_nil; reflexivity|].
+    replace (x + S y)%nat with (S (x + y)) by lia. simpl. apply IH.
+Qed.
